@@ -1,7 +1,299 @@
+//! Metamorphic engines: C13 (rejected / no-op calls inserted), C14 (same history under every
+//! persist policy), C18 (history vs its projection on one queue, live and after a crash).
 use crate::case::Case;
-use crate::fault::Fault;
-use crate::run::Failure;
+use crate::crash::{global_index, os_image_at, recover};
+use crate::fault::{CrashPoint, Fault};
+use crate::model::{Obs, Op, Outcome, Policy, QObs};
+use crate::run::{Driver, Failure};
+use crate::simfs::Eff;
 
-pub fn evaluate_meta(_prop: &str, _case: &Case, _fault: &Fault) -> Vec<Failure> {
-    Vec::new()
+fn fail(prop: &'static str, clause: &str, idx: usize, detail: String) -> Failure {
+    Failure { prop, clause: clause.to_string(), op_index: idx, detail }
+}
+
+pub fn run_keep(case: &Case) -> Driver {
+    let mut d = Driver::new(case);
+    d.keep_obs = true;
+    d.run_all(&case.ops);
+    d
+}
+
+fn strip_policy_changes(ops: &[Op]) -> Vec<Op> {
+    ops.iter().map(|o| if let Op::Restart { .. } = o { Op::Restart { policy: None } } else { o.clone() }).collect()
+}
+
+// ------------------------------------------------------------------ C14
+
+pub struct C14Result {
+    pub failures: Vec<Failure>,
+    pub traces_differ: bool,
+    pub wal_bytes_differ: u64,
+    pub images_differ: u64,
+    pub rollover: bool,
+}
+
+pub fn c14(case: &Case, policies: &[Policy]) -> C14Result {
+    let mut res = C14Result { failures: Vec::new(), traces_differ: false, wal_bytes_differ: 0, images_differ: 0, rollover: false };
+    let ops = strip_policy_changes(&case.ops);
+    let mut runs: Vec<(Policy, Driver)> = Vec::new();
+    for p in policies {
+        let mut c = case.clone();
+        c.policy = *p;
+        c.ops = ops.clone();
+        let mut d = run_keep(&c);
+        d.world.close();
+        runs.push((*p, d));
+    }
+    let Some((p0, d0)) = runs.first() else { return res };
+    res.rollover = d0.probes.rollover > 0;
+    let trace_sig = |d: &Driver| -> Vec<u8> { d.world.fs.borrow().trace.iter().map(|e| e.eff.class() as u8).collect() };
+    let t0 = trace_sig(d0);
+    let img0 = d0.world.image();
+    for (p, d) in runs.iter().skip(1) {
+        if trace_sig(d) != t0 {
+            res.traces_differ = true;
+        }
+        if d.world.image() != img0 {
+            res.images_differ += 1;
+        }
+        let n = d0.steps.len().max(d.steps.len());
+        for i in 0..n {
+            match (d0.steps.get(i), d.steps.get(i)) {
+                (Some(a), Some(b)) => {
+                    if a.outcome.logical() != b.outcome.logical() {
+                        res.failures.push(fail("C14", "outcome-differs", i, format!("op {} {}: {:?} under {:?} but {:?} under {:?}", i, a.op.short(), a.outcome.logical(), p0, b.outcome.logical(), p)));
+                        return res;
+                    }
+                    if a.outcome.wal() != b.outcome.wal() {
+                        res.wal_bytes_differ += 1;
+                    }
+                    let (oa, ob) = (d0.obs_log.get(i).cloned().flatten(), d.obs_log.get(i).cloned().flatten());
+                    if oa != ob {
+                        let diff = match (&oa, &ob) {
+                            (Some(x), Some(y)) => x.diff(y),
+                            _ => "one execution has no observable state (call failed)".to_string(),
+                        };
+                        res.failures.push(fail("C14", "state-differs", i, format!("after op {} {}: state under {:?} vs under {:?}: {}", i, a.op.short(), p0, p, diff)));
+                        return res;
+                    }
+                }
+                _ => {
+                    res.failures.push(fail("C14", "outcome-differs", i, format!("execution under {:?} stopped at op {} while the one under {:?} went on", if d0.steps.len() < d.steps.len() { p0 } else { p }, i, if d0.steps.len() < d.steps.len() { p } else { p0 })));
+                    return res;
+                }
+            }
+        }
+    }
+    res
+}
+
+// ------------------------------------------------------------------ C13 differential
+
+pub struct C13Result {
+    pub failures: Vec<Failure>,
+    pub inserted: usize,
+    pub shapes: std::collections::BTreeSet<u8>,
+}
+
+pub fn noop_shape(op: &Op, expected: &Outcome) -> Option<u8> {
+    match (op, expected) {
+        (Op::Create { .. }, Outcome::Err(_)) => Some(0),
+        (Op::Delete { .. }, Outcome::Err(_)) => Some(1),
+        (Op::Truncate { .. }, Outcome::Err(_)) => Some(2),
+        (Op::Append { .. }, Outcome::Err(crate::model::ErrKind::MissingQueue)) => Some(3),
+        (Op::Append { .. }, Outcome::Err(crate::model::ErrKind::Past)) => Some(4),
+        (Op::Append { pos: Some(_), lens, .. }, Outcome::Appended { last: None, .. }) if !lens.is_empty() => Some(5),
+        (Op::Append { lens, .. }, Outcome::Appended { last: None, .. }) if lens.is_empty() => Some(6),
+        _ => None,
+    }
+}
+
+/// H = case.ops; H+ = H with `extra` inserted (only those that really are rejected / no-op calls).
+pub fn c13(case: &Case, extra: &[(usize, Op)]) -> C13Result {
+    let mut res = C13Result { failures: Vec::new(), inserted: 0, shapes: Default::default() };
+    let mut base = run_keep(case);
+    if !base.conformance_ok() {
+        return res;
+    }
+    // build H+ while tracking the index map
+    let mut plus: Vec<Op> = Vec::new();
+    let mut map: Vec<usize> = Vec::new(); // index in H+ of each op of H
+    let mut sorted: Vec<(usize, Op)> = extra.to_vec();
+    sorted.sort_by_key(|e| e.0);
+    let mut it = sorted.into_iter().peekable();
+    for (i, op) in case.ops.iter().enumerate() {
+        while let Some((at, _)) = it.peek() {
+            if *at <= i && i > 0 {
+                let (_, x) = it.next().unwrap();
+                // only keep the call if the specification says it is rejected / a no-op at this point
+                let mut m = base.models[i].clone();
+                let exp = m.apply(&x, &base.names);
+                if let Some(shape) = noop_shape(&x, &exp) {
+                    res.shapes.insert(shape);
+                    res.inserted += 1;
+                    plus.push(x);
+                }
+            } else {
+                break;
+            }
+        }
+        map.push(plus.len());
+        plus.push(op.clone());
+    }
+    if res.inserted == 0 {
+        return res;
+    }
+    let mut cp = case.clone();
+    cp.ops = plus;
+    let mut dplus = run_keep(&cp);
+    // per-call oracle on the inserted calls (no mutating effect, wal == 0, state unchanged) ran inside the driver
+    if let Some(f) = dplus.failures.iter().find(|f| f.prop == "C13") {
+        res.failures.push(fail("C13", &f.clause, f.op_index, f.detail.clone()));
+        return res;
+    }
+    if !dplus.conformance_ok() {
+        let f = dplus.failures.iter().find(|f| f.prop == "C05" || f.prop == "C01").unwrap();
+        res.failures.push(fail("C13", "differential-diverged", f.op_index, format!("history with rejected/no-op calls inserted diverged from the one without: {}", f.detail)));
+        return res;
+    }
+    // differential: aligned ops have identical outcomes (incl. wal bytes), states and mutating effects
+    for (i, &j) in map.iter().enumerate() {
+        let (a, b) = (&base.steps[i], &dplus.steps[j]);
+        if a.outcome != b.outcome {
+            res.failures.push(fail("C13", "differential-outcome", j, format!("op {} returned {:?} in the plain history but {:?} after rejected/no-op calls were inserted before it", a.op.short(), a.outcome, b.outcome)));
+            return res;
+        }
+        if base.obs_log[i] != dplus.obs_log[j] {
+            res.failures.push(fail("C13", "differential-state", j, format!("state after {} differs once rejected/no-op calls were inserted before it", a.op.short())));
+            return res;
+        }
+        let muts = |d: &Driver, s: &crate::run::Step| -> Vec<String> {
+            d.world.fs.borrow().trace[s.eff_start..s.eff_end].iter().filter(|e| e.eff.is_mutating()).map(|e| match &e.eff {
+                Eff::Write { name, off, data, .. } => format!("w {name} {off} {} {:x}", data.len(), crate::prng::hash_bytes(data)),
+                other => other.short(),
+            }).collect()
+        };
+        let (ma, mb) = (muts(&base, a), muts(&dplus, b));
+        if ma != mb {
+            let k = ma.iter().zip(&mb).position(|(x, y)| x != y).unwrap_or(ma.len().min(mb.len()));
+            res.failures.push(fail("C13", "differential-effects", j, format!("op {} wrote differently once rejected/no-op calls were inserted before it: {:?} vs {:?}", a.op.short(), ma.get(k), mb.get(k))));
+            return res;
+        }
+    }
+    base.world.close();
+    dplus.world.close();
+    if base.world.image() != dplus.world.image() {
+        res.failures.push(fail("C13", "differential-image", cp.ops.len(), "WAL file contents after the final clean drop differ between the history with and without the rejected/no-op calls".to_string()));
+    }
+    res
+}
+
+// ------------------------------------------------------------------ C18 projection
+
+pub fn project(case: &Case, q: usize) -> (Case, Vec<usize>) {
+    let mut ops = Vec::new();
+    let mut map = Vec::new();
+    for (i, op) in case.ops.iter().enumerate() {
+        let keep = match op.queue() {
+            Some(x) => x == q,
+            None => true,
+        };
+        if keep {
+            ops.push(op.clone());
+            map.push(i);
+        }
+    }
+    let mut c = case.clone();
+    c.ops = ops;
+    (c, map)
+}
+
+fn q_view(obs: &Option<Obs>, name: &str) -> Option<Option<QObs>> {
+    obs.as_ref().map(|o| o.queues.get(name).cloned())
+}
+
+pub struct C18Result {
+    pub failures: Vec<Failure>,
+    pub observations: u64,
+    pub other_queue_gc_between: bool,
+}
+
+pub fn c18(case: &Case, q: usize, crash: &Option<CrashPoint>) -> C18Result {
+    let mut res = C18Result { failures: Vec::new(), observations: 0, other_queue_gc_between: false };
+    let full = run_keep(case);
+    if !full.conformance_ok() {
+        return res;
+    }
+    let (pc, map) = project(case, q);
+    let proj = run_keep(&pc);
+    let name = full.names[q].clone();
+    if proj.steps.len() != pc.ops.len() && proj.failures.is_empty() {
+        return res;
+    }
+    // did another queue's call delete a file at some point?
+    {
+        let fs = full.world.fs.borrow();
+        for s in &full.steps {
+            if s.op.queue().map(|x| x != q).unwrap_or(false) && fs.trace[s.eff_start..s.eff_end].iter().any(|e| matches!(e.eff, Eff::Unlink { .. })) {
+                res.other_queue_gc_between = true;
+            }
+        }
+    }
+    let limit = match crash {
+        Some(c) => c.op.min(full.steps.len()),
+        None => full.steps.len(),
+    };
+    for (j, &i) in map.iter().enumerate() {
+        if i >= limit {
+            break;
+        }
+        let (Some(sp), Some(sf)) = (proj.steps.get(j), full.steps.get(i)) else {
+            res.failures.push(fail("C18", "projection-stopped", i, format!("the projection on the queue stopped at its op {} ({:?})", j, proj.failures.first().map(|f| f.detail.clone()))));
+            return res;
+        };
+        if sp.outcome.logical() != sf.outcome.logical() {
+            res.failures.push(fail("C18", "outcome-differs", i, format!("op {} {} returned {:?} in the full history and {:?} when the calls addressed to other queues are removed", i, sf.op.short(), sf.outcome.logical(), sp.outcome.logical())));
+            return res;
+        }
+        let (vf, vp) = (q_view(&full.obs_log[i], &name), q_view(&proj.obs_log[j], &name));
+        res.observations += 1;
+        if vf != vp {
+            res.failures.push(fail("C18", "content-differs", i, format!("after op {} {}: the queue's existence/records/next position differ between the full history and its projection on that queue", i, sf.op.short())));
+            return res;
+        }
+    }
+    if let Some(cp) = crash {
+        // crash inside a call addressed to another queue; the queue must equal its projection at that point
+        let b = cp.op;
+        if b >= full.steps.len() || full.steps[b].op.queue() == Some(q) || full.steps[b].op.queue().is_none() {
+            return res;
+        }
+        let Some(idx) = global_index(&full, cp) else { return res };
+        let image = os_image_at(&full, idx, cp.byte);
+        let policy = full.steps[b].policy;
+        match recover(&image, &full.names, policy, &case.knobs) {
+            Err(_) => {} // C02's business
+            Ok((_w, obs)) => {
+                // last projected op before b
+                let j = map.iter().rposition(|&i| i < b);
+                let want: Option<QObs> = j.and_then(|j| proj.obs_log.get(j).cloned().flatten()).and_then(|o| o.queues.get(&name).cloned());
+                let got = obs.queues.get(&name).cloned();
+                res.observations += 1;
+                if got != want {
+                    res.failures.push(fail("C18", "content-differs-after-crash", b, format!("crash inside op {} {} (addressed to another queue): after recovery the queue's existence/records/next position differ from its projection ({} vs {} records)", b, full.steps[b].op.short(), got.map(|g| g.recs.len() as i64).unwrap_or(-1), want.map(|g| g.recs.len() as i64).unwrap_or(-1))));
+                }
+            }
+        }
+    }
+    res
+}
+
+pub fn evaluate_meta(prop: &str, case: &Case, fault: &Fault) -> Vec<Failure> {
+    let failures = match fault {
+        Fault::Policies { policies, .. } => c14(case, policies).failures,
+        Fault::Insert { extra } => c13(case, extra).failures,
+        Fault::Project { q, crash } => c18(case, *q, crash).failures,
+        _ => Vec::new(),
+    };
+    failures.into_iter().filter(|f| f.prop == prop).collect()
 }
